@@ -14,6 +14,12 @@ use crate::rt::Eff;
 use crate::util::Sm;
 use crate::wire::{kind_name, parse_datagram};
 
+thread_local! {
+    /// when set, every simulation on this thread hands over the per-instance call histories it produced
+    /// (setup + every public call in order), for the model correspondence of realistic cluster histories
+    pub static HIST_SINK: std::cell::RefCell<Option<Vec<(Setup, Vec<Op>)>>> = std::cell::RefCell::new(None);
+}
+
 #[derive(Clone, Debug)]
 pub enum Ev {
     Deliver { to: u16, from: u16, data: Vec<u8>, serial: u64 },
@@ -54,12 +60,24 @@ pub struct Sim {
     /// per node: the calls it processed (for model correspondence of realistic histories)
     pub histories: HashMap<u16, Vec<Op>>,
     pub record_histories: bool,
+    hist_setups: HashMap<u16, Setup>,
     pub sent_kinds: BTreeMap<String, u64>,
     pub events_processed: u64,
 }
 
 pub fn node_setup(addr: u16, gen: u16, policy: Policy, codec: CodecKind, cfg: &Cfg, seed: u64) -> Setup {
     Setup { id: VId::new(addr, gen), policy, codec, handler: HandlerKind::None, cfg: cfg.clone(), rng_seed: seed }
+}
+
+impl Drop for Sim {
+    fn drop(&mut self) {
+        if self.record_histories {
+            let addrs: Vec<u16> = self.hist_setups.keys().copied().collect();
+            for a in addrs {
+                self.flush_history(a);
+            }
+        }
+    }
 }
 
 impl Sim {
@@ -83,14 +101,31 @@ impl Sim {
             partition: None,
             hold_timers: false,
             histories: HashMap::new(),
-            record_histories: false,
+            record_histories: HIST_SINK.with(|h| h.borrow().is_some()),
+            hist_setups: HashMap::new(),
             sent_kinds: BTreeMap::new(),
             events_processed: 0,
         }
     }
 
     pub fn add_node(&mut self, setup: &Setup) {
+        if self.record_histories {
+            self.flush_history(setup.id.addr);
+            self.hist_setups.insert(setup.id.addr, setup.clone());
+        }
         self.nodes.insert(setup.id.addr, Instance::new(setup));
+    }
+
+    fn flush_history(&mut self, addr: u16) {
+        if let (Some(setup), Some(ops)) = (self.hist_setups.remove(&addr), self.histories.remove(&addr)) {
+            if !ops.is_empty() {
+                HIST_SINK.with(|h| {
+                    if let Some(v) = h.borrow_mut().as_mut() {
+                        v.push((setup, ops));
+                    }
+                });
+            }
+        }
     }
 
     pub fn schedule(&mut self, at_time: u64, ev: Ev) {
